@@ -232,7 +232,11 @@ def run(ck: Check):
         for mode in (None, os.path.join(work, "v")):
             for code, sig, sleep, wc, wh in ((0, None, 0, False, False), (1, None, 0, False, False),
                                              (77, None, 0, True, False), (0, 11, 0, True, False),
-                                             (0, None, 3, False, True)):
+                                             (0, None, 3, False, True),
+                                             # what a shell reports for "killed by signal N" is an ordinary exit code here
+                                             (129, None, 0, False, False), (137, None, 0, False, False),
+                                             (139, None, 0, False, False), (255, None, 0, False, False),
+                                             (128, None, 0, False, False), (76, None, 0, False, False)):
                 src = child(code, sleep=sleep, sig=sig)
                 args = ["-t", "1", PY, "-c", src, "", "0", "", "0"]
                 gc = crashes.interesting(args, mode)
